@@ -1086,6 +1086,22 @@ func init() {
 			}
 			return f(a[0].(*Term))
 		},
+		// round half away from zero: t = trunc(x); |x - t| is exact, so round = |x-t| >= 0.5 ? t + sign(x) : t
+		"math.Round": func(e *Exec, c *frame, a []Value) Value {
+			f := func(x *Term) *Term {
+				if x.conc() {
+					return cFP(math.Round(x.f()), 64)
+				}
+				t := mk(OFpTrunc, 0, x)
+				d := mk(OFpAbs, 0, mk(OFpSub, 0, x, t))
+				away := iteT(mk(OFpIsNeg, 0, x), mk(OFpSub, 0, t, cFP(1, 64)), mk(OFpAdd, 0, t, cFP(1, 64)))
+				return iteT(mk(OFpLe, 0, cFP(0.5, 64), d), away, t)
+			}
+			if r, ok := fdApply1(a[0].(*Term), f); ok {
+				return r
+			}
+			return f(a[0].(*Term))
+		},
 		"math.Ceil": func(e *Exec, c *frame, a []Value) Value {
 			f := func(x *Term) *Term {
 				if x.conc() {
